@@ -143,7 +143,7 @@ def run(tier, replay=None):
     # ---- semantic check of the modelled parts
     sem_items = [it for it in acc if "ast" in it]
     nstates = 24 if tier == "quick" else 64
-    reqs = semcheck.sem_requests(sem_items, nstates, seed() + 1, csubs=semprops.CSUBS)
+    reqs = semcheck.sem_requests(sem_items, nstates, seed() + 1, csubs=semprops.all_csubs())
     out = drv.run(pre + [r for _, r in reqs])[len(pre):]
     known_ids = {k["id"]: k for k in known_for("C01") if k.get("scope") == "generated"}
     known_feats = {f for k in known_ids.values() for f in k.get("feature_any", [])}
